@@ -13,3 +13,5 @@ mod uints;
 mod block;
 #[cfg(kani)]
 mod negotiate;
+// mod unquote: bounded harness for Unquote::to_cow vs the iterator (C17) - runs out of memory in CBMC even
+// for strings of <= 4 ASCII characters (measured: 415-513 s, then OOM); kept in src/unquote.rs as a record, not compiled
